@@ -84,6 +84,7 @@ class Graph(object):
         self.flow_index = {}     # id(Flow) -> index
         self.bind_index = {}     # id(Name) -> bid
         self.objs = []           # keep objects alive (ids are used as keys)
+        self.levels = []         # scope nesting depth of every flow (pseudo flows: 0)
 
     def nid(self, s):
         s = str(s)
@@ -193,6 +194,13 @@ def dump_graph(scope):
                     chain = scope_chain(pscope)
                     if not isinstance(fs, sc.ClassScope):
                         hide = sorted(g.nid(x) for x in _need(fs, 'locals'))
+        depth, sc_ = 0, fs
+        while isinstance(sc_, sc.Scope):
+            depth += 1
+            sc_ = _need(sc_, 'parent')
+            if depth > 10000:
+                raise DumpError('scope parent chain does not end')
+        g.levels.append(depth)
         g.flows.append({'own': own, 'parents': parents, 'chain': chain, 'hide': hide,
                         'hint': getattr(f, 'hint', '?'),
                         'scope_kind': type(fs).__name__})
@@ -210,6 +218,7 @@ def dump_graph(scope):
     gown = [g.bid(gl[k]) for k in sorted(gl)]
     gown.sort(key=lambda b: g.binds[b]['loc'])      # one binding per name: the order is immaterial
     g.flows.append({'own': gown, 'parents': [], 'chain': [], 'hide': None, 'hint': 'globals', 'scope_kind': 'globals'})
+    g.levels += [0, 0]
     g.nreal = n
     return g
 
@@ -490,17 +499,19 @@ Fixpoint zip_ok (setwise : bool) (a : list (option (option (list alt)))) (e : li
   | x :: a', y :: e' => ans_ok setwise x y && zip_ok setwise a' e'
   | _, _ => false
   end.
-(* one case: graph, positions, a history of queries with the answers the real code gave *)
-Definition check_history (setwise : bool)
-    (c : graph * list (bid * (pos * pos)) * list (query * option (list alt))) : bool :=
-  let '(g, kl, qs) := c in
+(* one case: graph, scope levels, positions, a history of queries with the answers the real code gave *)
+Definition hcase := (graph * list nat * list (bid * (pos * pos)) * list (query * option (list alt)))%type.
+(* hypothesis of C04_memo_transparent, evaluated on every dumped graph *)
+Definition check_wf (c : hcase) : bool := let '(g, lvs, kl, qs) := c in graph_wfb g lvs.
+Definition check_history (setwise : bool) (c : hcase) : bool :=
+  let '(g, lvs, kl, qs) := c in
   let km := kmap_of_list kl in
   own_sortedb km g &&
   zip_ok setwise (answers false g km (default_fuel g) init_state (map fst qs)) (map snd qs).
+Definition check_wf_history (setwise : bool) (c : hcase) : bool := check_wf c && check_history setwise c.
 (* the same queries, each on a fresh state and without memo (small graphs only) *)
-Definition check_pure (setwise : bool)
-    (c : graph * list (bid * (pos * pos)) * list (query * option (list alt))) : bool :=
-  let '(g, kl, qs) := c in
+Definition check_pure (setwise : bool) (c : hcase) : bool :=
+  let '(g, lvs, kl, qs) := c in
   let km := kmap_of_list kl in
   forallb (fun qe => ans_ok setwise (query_pure g km (default_fuel g) (fst qe)) (snd qe)) qs.
 '''
@@ -538,7 +549,11 @@ def graph_prelude():
 def history_case(g, hist):
     """hist = [(flow index, loc, nid, answer)]"""
     qs = coq_list(['(%s, %s)' % (query_term(f, loc, n), alts_term(a)) for f, loc, n, a in hist])
-    return '(%s, %s, %s)' % (graph_term(g), keys_term(g), qs)
+    return '(%s, %s, %s, %s)' % (graph_term(g), levels_term(g), keys_term(g), qs)
+
+
+def levels_term(g):
+    return '(%s : list nat)' % coq_list(['%d' % x for x in g.levels])
 
 
 # --------------------------------------------------------------------------------------------
